@@ -4,10 +4,11 @@ import vlib
 from checks import common_core as cc
 
 PID = "C14"
-NCASES = 2 * (30 + 4 + 6 + 6)
+NCASES = 2 * (30 + 4 + 6 + 5 + 6)
 RULE = ("{sleep, usleep, nanosleep, poll, select, pthread_cond_timedwait} x {plain thread, coroutine (task)} through the core entry points with the real libc underneath, nothing ever ready: 30 durations from 0 to 1 s incl. unit boundaries "
         "(999 999 us, 999 999 999 ns, 1 s + 1 ns), judged on CLOCK_MONOTONIC: never earlier than requested (tolerance min(1 ms,10%)+20 us), fastest of 3 attempts no later than requested + 300 ms (so a scheduling hiccup cannot alarm, a unit error cannot hide); "
         "4 long waits (4.4 s) checked for 'not early' (32-bit unit overflow); 6 invalid arguments (negative tv_sec/tv_nsec/tv_usec, tv_nsec = 1e9) compared with what the native call answers for the same argument, each able to kill its process; "
+        "5 waits issued right after a recv with SO_RCVTIMEO = 40 ms was completed by data (a leftover timeout entry of the finished call must not end the next wait early); "
         "6 maximal timeouts that must neither return within 400 ms nor abort. Each case is a distinct (call, argument, context); a dead or silent process is a violation with the argument as replay.")
 
 def pol(case, rc, timed_out, tail):
